@@ -10,6 +10,7 @@ package decoder
 //@ func readVarint
 //@   only_for C07
 //@   bitprecise
+//@   reveal kvPayload
 //@   ensures [C07.varint_reads_one_group] err == nil ==> kvGroup(reader, old(brPos(reader)), brPos(reader) - old(brPos(reader))) && brPos(reader) - old(brPos(reader)) <= 5
 //@   ensures [C07.varint_value_1] err == nil && brPos(reader) - old(brPos(reader)) == 1 && kvPayload(reader, old(brPos(reader)), 1) < 4294967296 ==> mathint(result0) == kvUnzigzag(kvPayload(reader, old(brPos(reader)), 1))
 //@   ensures [C07.varint_value_2] err == nil && brPos(reader) - old(brPos(reader)) == 2 && kvPayload(reader, old(brPos(reader)), 2) < 4294967296 ==> mathint(result0) == kvUnzigzag(kvPayload(reader, old(brPos(reader)), 2))
@@ -22,6 +23,7 @@ package decoder
 //@ func zigZagDecode
 //@   only_for C07
 //@   bitprecise
+//@   reveal kvPayload
 //@   ensures [C07.zigzag32] mathint(result) == kvUnzigzag(ite(value >= 0, mathint(value), mathint(value) + 4294967296))
 
 // readVarlong (64-bit reader used for the timestamp delta, a Kafka varlong). The first block is always read: it is
@@ -31,6 +33,7 @@ package decoder
 //@   loop 1 invariant brLen(reader) == old(brLen(reader)) && brPos(reader) >= old(brPos(reader)) && brPos(reader) <= brLen(reader) && shift <= 63
 //@   only_for C07
 //@   bitprecise
+//@   reveal kvPayload
 //@   ensures [C07.varlong_reads_one_group] err == nil ==> kvGroup(reader, old(brPos(reader)), brPos(reader) - old(brPos(reader))) && brPos(reader) - old(brPos(reader)) <= 10
 //@   ensures [C07.varlong_value_1] err == nil && brPos(reader) - old(brPos(reader)) == 1 && kvPayload(reader, old(brPos(reader)), 1) < 18446744073709551616 ==> mathint(result0) == kvUnzigzag(kvPayload(reader, old(brPos(reader)), 1))
 //@   ensures [C07.varlong_value_2] err == nil && brPos(reader) - old(brPos(reader)) == 2 && kvPayload(reader, old(brPos(reader)), 2) < 18446744073709551616 ==> mathint(result0) == kvUnzigzag(kvPayload(reader, old(brPos(reader)), 2))
@@ -44,3 +47,60 @@ package decoder
 //@   ensures [C07.varlong_value_10] err == nil && brPos(reader) - old(brPos(reader)) == 10 && kvPayload(reader, old(brPos(reader)), 10) < 18446744073709551616 ==> mathint(result0) == kvUnzigzag(kvPayload(reader, old(brPos(reader)), 10))
 //@   ensures [C07.varlong_rejects_only_truncated_or_overlong] err != nil ==> (brPos(reader) == brLen(reader) || brPos(reader) - old(brPos(reader)) >= 10) && (forall i int :: old(brPos(reader)) <= i && i < brPos(reader) ==> brAt(reader, i) >= 128)
 //@   loop 1 invariant [C07.varlong_inv] shift == 7 * (brPos(reader) - old(brPos(reader))) && brPos(reader) - old(brPos(reader)) <= 9 && (forall i int :: old(brPos(reader)) <= i && i < brPos(reader) ==> brAt(reader, i) >= 128) && mathint(value) == kvPayload(reader, old(brPos(reader)), brPos(reader) - old(brPos(reader))) && 0 <= mathint(value) && mathint(value) < (1 << shift)
+
+// ---- record layer (same clauses, same names as the iceberg decoder) ----
+//@ func readNullableBytes
+//@   only_for C07
+//@   ensures [C07.bytes_null] length < 0 ==> err == nil && len(result0) == 0 && base(result0) == 0 && brPos(reader) == old(brPos(reader))
+//@   ensures [C07.bytes_value] err == nil && length >= 0 ==> len(result0) == int(length) && brPos(reader) == old(brPos(reader)) + int(length) && (forall i int :: 0 <= i && i < len(result0) ==> result0[i] == brAt(reader, old(brPos(reader)) + i))
+//@   ensures [C07.bytes_rejects_only_truncated] err != nil ==> int(length) > old(brLen(reader)) - old(brPos(reader))
+
+// decodeRecord: the Kafka v2 record layout, field by field, in stream order:
+//   length varint | attributes byte | timestampDelta VARLONG | offsetDelta varint | keyLen varint | key | valueLen varint | value | headerCount varint | headers
+// The timestamp delta is read with readVarlong (64-bit): the anchor readVarlong#1 exists only if it is.
+//@ func decodeRecord
+//@   only_for C07
+//@   ghost glen int32 = 0
+//@   ghost gts int64 = 0
+//@   ghost god int32 = 0
+//@   ghost gklen int32 = 0
+//@   ghost gvlen int32 = 0
+//@   ghost gkey []byte = nil
+//@   ghost gval []byte = nil
+//@   at readVarint#1 before assert [C07.record_length_from_outer_stream] arg0 == reader
+//@   at readVarint#1 after set glen = ret0
+//@   at NewReader#1 before assert [C07.record_body_is_length_bytes] len(arg0) == int(glen)
+//@   at readVarlong#1 before assert [C07.timestamp_delta_after_attributes] arg0 == buf && brPos(buf) == 1
+//@   at readVarlong#1 after set gts = ret0
+//@   at readVarint#2 after set god = ret0
+//@   at readVarint#3 after set gklen = ret0
+//@   at readNullableBytes#1 before assert [C07.key_length_is_fourth_varint] arg1 == gklen
+//@   at readNullableBytes#1 after set gkey = ret0
+//@   at readVarint#4 after set gvlen = ret0
+//@   at readNullableBytes#2 before assert [C07.value_length_is_fifth_varint] arg1 == gvlen
+//@   at readNullableBytes#2 after set gval = ret0
+//@   ensures [C07.record_offset] err == nil ==> result0.Offset == int64(baseOffset + int64(god))
+//@   ensures [C07.record_timestamp] err == nil ==> result0.Timestamp == int64(baseTimestamp + gts)
+//@   ensures [C07.record_key_value] err == nil ==> sameSlice(result0.Key, gkey) && sameSlice(result0.Value, gval)
+//@   ensures [C07.record_topic_partition] err == nil ==> result0.Topic == topic && result0.Partition == partition
+
+// ---- segment / batch framing (same clauses, same names as the iceberg decoder) ----
+//@ func decodeSegment
+//@   only_for C07
+//@   at decodeRecordBatches#1 before assert [C07.body_between_header_and_footer] base(arg0) == base(segment) && off(arg0) == off(segment) + 32 && len(arg0) == len(segment) - 48 && arg1 == topic && arg2 == partition
+//@   ensures [C07.short_segment_rejected] len(segment) < 48 ==> err != nil
+//@
+//@ func decodeRecordBatches
+//@   only_for C07
+//@   ghost gstart int = 0
+//@   at decodeBatchRecords#1 before set gstart = offset
+//@   at decodeBatchRecords#1 before assert [C07.frame_is_12_plus_batch_length] base(arg0) == base(data) && off(arg0) == off(data) + offset && len(arg0) == 12 + int(be32(data, offset + 8)) && offset + len(arg0) <= len(data) && arg1 == topic && arg2 == partition
+//@   at loopstep#1 assert [C07.frames_are_consecutive] offset == gstart + 12 + int(be32(data, gstart + 8))
+//@
+//@ func decodeBatchRecords
+//@   only_for C07
+//@   at NewReader#1 before assert [C07.records_start_at_61] base(arg0) == base(batch) && off(arg0) == off(batch) + 61 && len(arg0) == len(batch) - 61
+//@   at decodeRecord#1 before assert [C07.batch_header_fields] arg1 == int64(be64(batch, 0)) && arg2 == int64(be64(batch, 27)) && recordCount == int32(be32(batch, 57)) && arg3 == topic && arg4 == partition
+//@   ensures [C07.compressed_batch_rejected] len(batch) >= 61 && int16(be16(batch, 21)) & 7 != 0 ==> err != nil
+//@   ensures [C07.decodes_record_count_records] err == nil && len(batch) >= 61 && int32(be32(batch, 57)) > 0 ==> len(result0) == int(int32(be32(batch, 57)))
+//@   loop 1 invariant [C07.one_record_per_iteration] len(records) == int(i)
